@@ -1,5 +1,5 @@
 (** Correspondence judge for C09 (Length / SplitAt / Reverse). *)
-From Coq Require Import ZArith QArith Qabs List Bool.
+From Coq Require Import ZArith QArith Qabs Qminmax Qround List Bool.
 From CV Require Import Geom.Winding.
 From CV Require Import Base.Dy PathEnc.Enc Geom.Matrix Geom.Bezier Split.Reverse Split.SplitAt Split.Cert.
 Import ListNotations.
@@ -38,6 +38,15 @@ Fixpoint nf (p : list seg) : list seg :=
 Definition rel_close (a b tol : Q) : bool :=
   Qle_bool (Qabs (a - b)) (tol * (1 + Qabs a)).
 
+(** closed flag of every subpath, in order *)
+Fixpoint closed_flags (p : list seg) (cur : option bool) : list bool :=
+  match p with
+  | [] => match cur with Some b => [b] | None => [] end
+  | SM _ :: r => (match cur with Some b => [b] | None => [] end) ++ closed_flags r (Some false)
+  | SZ _ :: r => closed_flags r (Some true)
+  | _ :: r => closed_flags r (match cur with Some b => Some b | None => Some false end)
+  end.
+
 (* ---- R: Reverse -------------------------------------------------------------------------------- *)
 Record rcase := mkR {
   r_p : list seg; r_rev : list seg; r_revrev : list seg; r_rev3 : list seg;
@@ -51,17 +60,19 @@ Record rcase := mkR {
     16 PROP closedness changed, 32 PROP not an involution (up to the normal form; triple = single),
     64 PROP winding number not negated, 128 PROP panic.   class: number of records *)
 Definition judge_r (c : rcase) : list Z :=
-  if r_panic c then [128%Z; 0%Z; 0%Z] else
+  if r_panic c then [128%Z; 0%Z; 0%Z; 0%Z; 0%Z] else
   let m := reverse (r_p c) in
   let tie := negb (segs_eqb m (r_rev c)) in
   let p_pts := negb (all2 pt_eqb (verts (r_rev c)) (rev (verts (r_p c)))) in
   let p_len := negb (rel_close (r_len c) (r_len_rev c) (r_tol c)) in
   let p_bnd := negb (Qle_bool (r_bounds_dev c) (r_tol c * (1 + Qabs (r_len c)))) in
-  let p_cl := negb (Bool.eqb (r_closed c) (r_closed_rev c)) in
+  let fl := closed_flags (r_p c) None in
+  let p_cl := negb (all2 Bool.eqb (closed_flags (r_rev c) None) (rev fl))
+              || (match fl with [_] => negb (Bool.eqb (r_closed c) (r_closed_rev c)) | _ => false end) in
   let p_inv := negb (segs_eqb (nf (r_revrev c)) (nf (r_p c)) && segs_eqb (r_rev3 c) (r_rev c)) in
   let p_wn := negb (forallb (fun q => (wn (r_poly_rev c) q =? - wn (r_poly c) q)%Z) (r_samples c)) in
   [ (bit tie 1 + bit p_pts 2 + bit p_len 4 + bit p_bnd 8 + bit p_cl 16 + bit p_inv 32 + bit p_wn 64)%Z;
-    Z.of_nat (length (r_p c)); Z.of_nat (length (r_samples c)) ].
+    Z.of_nat (length (r_p c)); Z.of_nat (length (r_samples c)); 0%Z; 0%Z ].
 
 (* ---- S: SplitAt / Length ------------------------------------------------------------------------ *)
 Record pseg := mkPS { ps_ctrl : list qpt; ps_idx : Z; ps_s : Q; ps_u : Q }.
@@ -84,20 +95,25 @@ Fixpoint tiles (n : Z) (cur_i : Z) (cur_u : Q) (l : list pseg) : bool :=
     && tiles n (ps_idx x) (ps_u x) r
   end.
 
-Definition piece_lo (pc : list pseg) : Q := fold_right Qplus 0 (map (fun x => len_lo Kq Nsub (ps_ctrl x)) pc).
-Definition piece_hi (pc : list pseg) : Q := fold_right Qplus 0 (map (fun x => len_hi Kq Nsub (ps_ctrl x)) pc).
+Definition piece_lo (pc : list pseg) : Q := qsumr (map (fun x => len_lo Kq Nsub (ps_ctrl x)) pc).
+Definition piece_hi (pc : list pseg) : Q := qsumr (map (fun x => len_hi Kq Nsub (ps_ctrl x)) pc).
 
 Definition within1pc (sl v lo hi : Q) : bool :=
   Qle_bool (lo * (99 # 100) - sl) v && Qle_bool v (hi * (101 # 100) + sl).
 
-(** piece k must have length t_k - t_{k-1}; the last one Length - t_last *)
-Fixpoint cuts_ok (sl : Q) (prev : Q) (cuts : list Q) (L : Q) (pcs : list (list pseg)) : bool :=
+(** the k-th cut must lie at arc length t_k: distance of t_k from the cumulated enclosure of pieces 0..k-1, and of
+    Length() from the enclosure of all pieces; [None] = number of pieces does not fit the number of cuts.
+    The verdict allows 1 % of the total length (the accuracy the code documents for its quadrature / inversion). *)
+Definition outside (v lo hi : Q) : Q := Qmax 0 (Qmax (lo - v) (v - hi)).
+Fixpoint cuts_dev (clo chi : Q) (cuts : list Q) (L : Q) (pcs : list (list pseg)) : option Q :=
   match pcs, cuts with
-  | [], [] => true
-  | [], [t] => Qle_bool (Qabs (L - t)) (sl + L * (1 # 100))          (* a cut at the very end makes no piece *)
-  | [pc], [] => within1pc sl (L - prev) (piece_lo pc) (piece_hi pc)
-  | pc :: r, t :: cs => within1pc sl (t - prev) (piece_lo pc) (piece_hi pc) && cuts_ok sl t cs L r
-  | _, _ => false
+  | [], [] => Some (outside L clo chi)
+  | [], [t] => Some (Qmax (Qabs (L - t)) (outside L clo chi))      (* a cut at the very end makes no piece *)
+  | [pc], [] => Some (outside L (qadd clo (piece_lo pc)) (qadd chi (piece_hi pc)))
+  | pc :: r, t :: cs =>
+    let clo' := qadd clo (piece_lo pc) in let chi' := qadd chi (piece_hi pc) in
+    match cuts_dev clo' chi' cs L r with Some d => Some (Qmax d (outside t clo' chi')) | None => None end
+  | _, _ => None
   end.
 
 (** polylines of a piece: a new polyline starts where a segment does not start at the previous end *)
@@ -120,17 +136,20 @@ Definition piece_near (sl : Q) := all2 (poly_near sl).
     input, 4 PROP pieces do not tile the input in order, 8 PROP a cut is not at the requested arc length (1 % + enclosure),
     16 PROP Length() outside the enclosure +-1 %, 64 PROP panic.   Output: [flags; #pieces; #curved piece segments] *)
 Definition judge_s (c : scase) : list Z :=
-  if s_panic c then [64%Z; 0%Z; 0%Z] else
+  if s_panic c then [64%Z; 0%Z; 0%Z; 0%Z; 0%Z] else
   let sl := s_slack c in
   let all := concat (s_pieces c) in
   let cert := forallb (fun x => sub_ok sl (nth (Z.to_nat (ps_idx x)) (s_in c) []) (ps_ctrl x) (ps_s x) (ps_u x)
                                 && (0 <=? ps_idx x)%Z) all in
   let tile := tiles (Z.of_nat (length (s_in c))) 0 0 all in
   let cuts := filter (fun t => negb (Qle_bool t 0)) (s_cuts c) in
-  let cok := cuts_ok sl 0 cuts (s_length c) (s_pieces c) in
-  let lo := fold_right Qplus 0 (map (len_lo Kq Nsub) (s_in c)) in
-  let hi := fold_right Qplus 0 (map (len_hi Kq Nsub) (s_in c)) in
+  let L := s_length c in
+  let cdev := cuts_dev 0 0 cuts L (s_pieces c) in
+  let cok := match cdev with Some d => Qle_bool d (sl + L * (1 # 100)) | None => false end in
+  let lo := qsumr (map (len_lo Kq Nsub) (s_in c)) in
+  let hi := qsumr (map (len_hi Kq Nsub) (s_in c)) in
   let lok := within1pc sl (s_length c) lo hi in
+  let permille := fun d => if Qle_bool L 0 then 0%Z else Qceiling (d / L * 1000) in
   let tie := s_axis c &&
              match s_cuts c, split_at len1 false (s_subpaths c) (s_cuts c) with
              | [], _ => false
@@ -139,7 +158,9 @@ Definition judge_s (c : scase) : list Z :=
              end in
   [ (bit tie 1 + bit (negb cert) 2 + bit (negb tile) 4 + bit (negb cok) 8 + bit (negb lok) 16)%Z;
     Z.of_nat (length (s_pieces c));
-    Z.of_nat (length (filter (fun x => (2 <? length (ps_ctrl x))%nat) all)) ].
+    Z.of_nat (length (filter (fun x => (2 <? length (ps_ctrl x))%nat) all));
+    match cdev with Some d => permille d | None => (-1)%Z end;
+    permille (outside L lo hi) ].
 
 Inductive case09 := CR (c : rcase) | CS (c : scase).
 Definition judge (c : case09) : list Z := match c with CR r => judge_r r | CS s => judge_s s end.
